@@ -1332,6 +1332,13 @@ func main() {
 		r.lines = nil
 		r.exec(c)
 	}
+	// corpus (runs first): one point per shard, the sort property an unsigned integer here, a negative float
+	// there, an integer beyond 2^53 beside the float64 next to it, …: only the cluster's merge orders them
+	for _, p := range mixedKindCorpus() {
+		r.exec(p)
+	}
+	r.c.close()
+	r.c = nil
 	cfgs := map[string]int{}
 	// fault scenarios: the corpus of minimised witnesses first, then random ones
 	fscs := faultCorpus()
@@ -1345,11 +1352,6 @@ func main() {
 	// corpus: ids named more than once in one request (stored / unknown, next to each other / apart),
 	// on two servers and several shards, all up and with one server stopped
 	for _, p := range repeatedIdCorpus() {
-		r.exec(p)
-	}
-	// corpus: one point per shard, the sort property an unsigned integer here, a negative float there, an
-	// integer beyond 2^53 beside the float64 next to it, …: only the cluster's merge orders them
-	for _, p := range mixedKindCorpus() {
 		r.exec(p)
 	}
 	for i := 0; i < *n+*nbig; i++ {
